@@ -11,6 +11,11 @@ POOL = ["", " ", "  ", "a", "b", "abc", "x y", "é", "日本", "😀", "\t", "0"
 
 
 def gen_array(rnd, d):
+    if rnd.random() < 0.15:
+        # long lines: more than 512 / 1024 / 2048 bytes, markers beyond every 512-byte block boundary
+        n = rnd.choice([12, 20, 20])
+        alpha = "abcdefghij klmnop" + d + "é"
+        return ["".join(rnd.choice(alpha) for _ in range(rnd.choice([20, 30, 60, 120]))) + rnd.choice(["", '"', d, "\n"]) for _ in range(n)]
     n = rnd.choice([1, 1, 2, 2, 3, 5, 8, 13, 20])
     specials = [d, d + d, '"', '""', '"' + d, "\n", "\r", "\r\n", "\n\r", " ", d + " ", " " + d, '"\n"', d + "\n" + d,
                 '" "', 'a"b', "\n\n", "x\ny", "x\ry", 'x"' + d + '"y']
@@ -89,6 +94,10 @@ def check_one(rep, binary, arr, d, fmt):
         rep.count("has.newline_in_field")
     if any(s == "" for s in arr):
         rep.count("has.empty_field")
+    if len(line) > 512:
+        rep.count("line.over_512_bytes")
+    if len(line) > 1024:
+        rep.count("line.over_1024_bytes")
 
 
 def run(leg, seed, tier, replay=None):
@@ -128,4 +137,5 @@ def run(leg, seed, tier, replay=None):
     rep.require("has.quote_in_field", 50)
     rep.require("has.newline_in_field", 50)
     rep.require("has.empty_field", 50)
+    rep.require("line.over_512_bytes", 30)
     return rep.to_json(seed, tier)
